@@ -149,6 +149,14 @@ def instances(rng, q):
         ('purepath', pathlib.PurePosixPath('a/b/c')), ('purepath', pathlib.PurePosixPath('/')), ('purepath', pathlib.PurePosixPath('.')),
         ('purepath', pathlib.PureWindowsPath('C:/x/y')), ('purepath', pathlib.PurePosixPath('/'.join(['segment%d' % i for i in range(15)]))),
         ('purepath', pathlib.PosixPath('rel/path')),
+        # members that print with an explanatory comment (functions, classes, pytz zones) passed BY KEYWORD
+        ('partial', functools.partial(dict, factory=collections.OrderedDict)), ('partial', functools.partial(sorted, [3, 1], key=len)),
+        ('partial', functools.partial(int, base=2, conv=len)),
+        ('SimpleNamespace', types.SimpleNamespace(convert=int, parse=len, strict=True)),
+        ('SimpleNamespace', types.SimpleNamespace(cls=collections.OrderedDict)),
+        ('namedtuple', Point(sorted, 'x')), ('namedtuple', Point(1, collections.deque)), ('namedtuple', Single(len)),
+        ('OrderedDict', collections.OrderedDict([('f', len), ('c', dict)])), ('defaultdict', collections.defaultdict(list, {'f': sorted})),
+        ('deque', collections.deque([len, 1], maxlen=4)), ('exception', ValueError(len, 'x')),
     ]
     return out
 
@@ -317,10 +325,14 @@ def check_c07(chk, args):
         except TypeError:
             pass
         for cname, wrap in ctxs.items():
-            for w in ((1, 20, 79) if q else (1, 10, 20, 40, 79, 200)):
+            # (width, ribbon_width): None = the default ribbon (71); the last ones are wide enough for any instance to
+            # fit on one line - "at every layout configuration" includes the ones where nothing has to break
+            for w, rw in (((1, None), (20, 20), (79, None), (400, 400), (10 ** 5, 10 ** 5)) if q else
+                          ((1, None), (10, 10), (20, None), (40, 40), (79, None), (200, None), (200, 200), (400, 400),
+                           (10 ** 5, 10 ** 5))):
                 v = wrap(obj)
-                desc = {'type': kind, 'object': repr(obj)[:200], 'context': cname, 'width': w}
-                out = print_total(chk, v, desc, width=w)
+                desc = {'type': kind, 'object': repr(obj)[:200], 'context': cname, 'width': w, 'ribbon_width': rw}
+                out = print_total(chk, v, desc, width=w, **({} if rw is None else {'ribbon_width': rw}))
                 if out is None:
                     continue
                 n += 1
